@@ -516,6 +516,13 @@ func StringProgs() []Prog {
 			strContract(2, 3, 5, func(r rune) bool { return r == 'é' })),
 		one("StringOf(RuneFrom(nil,Nd))", "str", func() *rapid.Generator[string] { return rapid.StringOf(rapid.RuneFrom(nil, unicode.Nd)) },
 			strContract(-1, -1, -1, func(r rune) bool { return unicode.Is(unicode.Nd, r) })),
+		// a user-supplied rune generator that also yields unencodable code points (surrogates):
+		// they must be rejected, never turned into U+FFFD or counted with a wrong length
+		one("StringOfN(Int32Range(0xD7FE,0xE001),-1,-1,4)", "str rej", func() *rapid.Generator[string] { return rapid.StringOfN(rapid.Int32Range(0xD7FE, 0xE001), -1, -1, 4) },
+			strContract(-1, -1, 4, func(r rune) bool { return r >= 0xD7FE && r <= 0xE001 && r != utf8.RuneError })),
+		one("StringOf(SampledFrom(a,-1,0x110000,0xDC00))", "str rej", func() *rapid.Generator[string] {
+			return rapid.StringOfN(rapid.SampledFrom([]rune{'a', -1, 0x110000, 0xDC00}), 1, 3, 3)
+		}, strContract(1, 3, 3, func(r rune) bool { return r == 'a' })),
 		one("Rune()", "str wide", rapid.Rune, func(r rune) string {
 			if !utf8.ValidRune(r) {
 				return "invalid rune"
